@@ -24,6 +24,9 @@ Conforms(in, obs) ==
   /\ (ref.errs > 0 => obs.exit # 0)
   /\ (ref.errs = 0 /\ EmptyNames(in.roots) = {} => obs.exit = 0)
   /\ (ref.errs > 0 \/ EmptyNames(in.roots) # {} => obs.diag)
+  \* an empty operand on the command line is a starting point that cannot be examined (in a -files0-from list it is
+  \* diagnosed and skipped; the exit status is not fixed there)
+  /\ (EmptyNames(in.roots) # {} /\ ~("files0" \in DOMAIN in /\ in.files0) => obs.exit # 0)
   \* nothing at all when mindepth > maxdepth
   /\ (cfg.min > cfg.max => obs.paths = <<>>)
 
